@@ -6,7 +6,10 @@ of the repository - evalcluster(...).values, the index matrices of expandcluster
 interaction lists of clusterevaluator (and the energy part of the lists after jumpnetworkevaluator[_vacancy],
 read from the sampler) and MonteCarloSampler.start/E - are compared with the brute-force sum R9
 (vmon.ref.clusterE: clusters x lattice translations, every site located by its position in the supercell).
-Exhaustive over all occupations of small supercells, random occupations on larger ones.
+Exhaustive over all occupations of small supercells, random occupations on larger ones.  Besides the roomy
+supercells (shortest supercell vector > cut-off) a fixed share of the cases uses thin supercells, in which a
+cluster contains a site and its own periodic image and the image of the fixed vacancy lies within the range
+of the vacancy clusters.
 """
 import itertools
 import numpy as np
@@ -22,13 +25,28 @@ RULE = ('3-D crystal (named or random, 1-3 species, <= 5 atoms) x random spectat
         'vector exceeds the cut-off x random spectator occupation x random values (with/without constant term) x optional '
         'vacancy on a random mobile site (+ vacancy clusters) x optional jump network with KRA values and TS clusters; '
         'small mode: n mobile sites <= 10 (quick) / 14 (thorough), ALL 2^n (2^(n-1) with vacancy) occupations; large mode: '
-        'n <= 60, random occupations of random filling + empty + full. non-trivial = expansion has clusters of order >= 2 '
-        'with instances on mobile sites; distinct = (kind, spectators, supercell matrix, order, vacancy, number of sets)')
+        'n <= 60, random occupations of random filling + empty + full. THIN cases (16 extra on the quick tier, 400 on the thorough '
+        'tier; flags spec/vac/jn fixed by the case index, vacancy in 60%): supercells with a lattice vector shorter than the cut-off - '
+        'half from a fixed menu (fcc nn clusters in 1x2x3 / 1x1x4 / 2x2x1 / 1x3x3 / 1x5x6 / a non-diagonal thin cell, fcc 2x2x2 with pairs to '
+        'the 4th neighbour, hcp 1x1x2 / 2x1x2, B2 1x2x2 / 2x1x3 / 1x4x5 and 2x2x2 with cut-off 2.01, rocksalt, L12, sc, bcc, diamond; spectator '
+        'set drawn at random), half random: crystal and cut-off as above (order >= 2, at least two neighbour shells tried) x random '
+        'integer supercell matrix with a 1 on the diagonal (diagonal / triangular / full) whose shortest lattice vector is shorter than '
+        'the cut-off (brute force); size decides between the exhaustive and the random-occupation mode. non-trivial = expansion has '
+        'clusters of order >= 2 with instances on mobile sites; distinct = (kind, spectators, supercell matrix, order, vacancy, '
+        'number of sets)')
 ASSUMPTIONS = ['R9 is trusted: positions of cluster sites are wrapped into the supercell and matched (1e-6) against '
                'sup.mobilepos / sup.specpos, which define the meaning of the occupation vectors',
-               'no cluster wraps onto itself: every pair of cluster sites is closer than the cut-off, and the generator only '
-               'accepts supercells whose shortest non-zero lattice vector is longer than 1.000001 x cut-off (checked by brute '
-               'force); different translates of one cluster may still share their site set (handled by all evaluators)',
+               'meaning of the brute-force sum, for every supercell: one instance per (cluster, lattice translation modulo the '
+               'supercell) (vacancy clusters: the one translation that seats the cluster on the fixed vacancy), each of its sites '
+               'mapped into the supercell by its position, the instance is on iff all mapped sites are occupied; the vacancy site is '
+               'never occupied. In thin supercells a site may be hit twice by one instance (it just has to be occupied) and a vacancy '
+               'cluster may reach the image of its own vacancy (never on). On the unchanged repository all four evaluators agree with '
+               'this reading in every thin cell tried (probe: exhaustive over all occupations, with and without vacancy / spectators)',
+               'regular cases: no cluster wraps onto itself - every pair of cluster sites is closer than the cut-off, and the generator '
+               'only accepts supercells whose shortest non-zero lattice vector is longer than 1.000001 x cut-off (checked by brute '
+               'force, clause selfwrap-bound); thin cases: the shortest supercell vector is shorter than the cut-off (same brute force), '
+               'and the census of self-wrapping instances / vacancy images comes from the reference model R9 (positions only); '
+               'different translates of one cluster may share their site set in both regimes (handled by all evaluators)',
                'ClusterSupercell is three-dimensional by construction (maketrans enumerates 3-vectors): 2-D crystals are not used',
                'cluster counts are compared exactly; energies with tolerance 1e-9 x (1 + sum_k |value_k| x instances_k)',
                'with a vacancy the mobile occupation handed to evalcluster holds 0 or -1 at the vacancy and the one handed to the '
@@ -40,21 +58,39 @@ REQUIRED_OBS = {'supercells_checked': 20, 'exhaustive_supercells': 8, 'configs_c
                 'spectator_supercells': 5, 'jumpnetwork_samplers': 4, 'nondiagonal_supercells': 6, 'nontrivial_supercells': 12,
                 'eval:C32:evalcluster-counts': 300, 'eval:C32:evalcluster-energy': 300, 'eval:C32:matrices-counts': 20,
                 'eval:C32:interaction-list-energy': 20, 'eval:C32:sampler-energy': 300, 'eval:C32:sampler-list-energy': 20,
-                'eval:C32:selfwrap-bound': 20}
+                'eval:C32:selfwrap-bound': 20,
+                # thin (self-wrapping) regime
+                'thin_supercells': 10, 'thin_exhaustive_supercells': 5, 'thin_vacancy_supercells': 4, 'thin_spectator_supercells': 2,
+                'thin_random_supercells': 3, 'thin_menu_supercells': 3, 'self_wrapping_instances': 150, 'self_wrapping_instances_on': 500,
+                'vacancy_image_in_range': 15, 'vacancy_image_rest_occupied': 30, 'thin_jumpnetwork_samplers': 2}
 CASE_TIMEOUT = 600
 CHUNK = 4
 COORD_LIMIT = {1: 10 ** 6, 2: 30, 3: 14, 4: 9}
 MULTI3 = ('b2', 'l12', 'rocksalt')
 NAMES3 = ('sc', 'fcc', 'bcc', 'diamond', 'hcp', 'omega', 'rumpled', 'b2', 'l12', 'tet', 'rocksalt')
+# thin supercells: (crystal, supercell matrix, cut-off, largest order); every one has a supercell vector shorter than the cut-off
+THIN_MENU = [('fcc', [1, 2, 3], 0.8, 3), ('fcc', [1, 1, 4], 0.8, 4), ('fcc', [2, 2, 1], 0.8, 3), ('fcc', [1, 3, 3], 0.8, 3),
+             ('fcc', [2, 2, 2], 1.5, 2), ('fcc', [[1, 1, 0], [0, 2, 1], [0, 0, 2]], 0.8, 3), ('fcc', [1, 5, 6], 0.8, 3),
+             ('hcp', [1, 1, 2], 1.01, 3), ('hcp', [2, 1, 2], 1.01, 3),
+             ('b2', [1, 2, 2], 1.01, 3), ('b2', [2, 1, 3], 1.01, 3), ('b2', [2, 2, 2], 2.01, 2), ('b2', [1, 4, 5], 1.01, 3),
+             ('b2', [[1, 0, 0], [0, 2, 1], [0, 0, 3]], 1.01, 3), ('rocksalt', [1, 2, 3], 0.75, 3), ('l12', [1, 1, 2], 1.01, 2),
+             ('sc', [1, 2, 3], 1.01, 3), ('bcc', [1, 2, 3], 0.87, 3), ('diamond', [1, 2, 2], 0.75, 3)]
+THIN_MULTI = [m for m in THIN_MENU if m[0] in MULTI3]
 
 
 def cases(tier, seed):
     global CHUNK
     n = 40 if tier == 'quick' else 1600
+    nthin = 16 if tier == 'quick' else 400
     CHUNK = 4 if tier == 'quick' else 8
     # feature slices are fixed by the case index so that every run sees every regime
-    return [{'seed': seed, 'idx': i, 'hashseed': i % 4 if tier == 'quick' else i % 7, 'tier': tier, 'mode': 'large' if i % 4 == 3 else 'small',
-             'spec': i % 3 == 1, 'vac': i % 5 in (0, 3), 'jn': i % 2 == 0} for i in range(n)]
+    out = [{'seed': seed, 'idx': i, 'hashseed': i % 4 if tier == 'quick' else i % 7, 'tier': tier, 'mode': 'large' if i % 4 == 3 else 'small',
+            'spec': i % 3 == 1, 'vac': i % 5 in (0, 3), 'jn': i % 2 == 0} for i in range(n)]
+    # thin (self-wrapping) supercells; the regular cases above keep their indices and random streams
+    out += [{'seed': seed, 'idx': 100000 + i, 'hashseed': i % 4 if tier == 'quick' else i % 7, 'tier': tier, 'thin': True,
+             'mode': 'large' if i % 8 == 7 else 'small', 'menu': i % 2 == 0, 'spec': i % 3 == 1, 'vac': i % 5 in (0, 1, 3), 'jn': i % 4 in (0, 3)}
+            for i in range(nthin)]
+    return out
 
 
 def named3(name):
@@ -64,33 +100,41 @@ def named3(name):
     return gen.named(name)[0]
 
 
-def rand_supercell(rng, crys, spectator, cutoff, nmob, nlo, nhi, tries=400):
-    """integer matrix with nlo <= |det| * nmob <= nhi and shortest supercell vector > cutoff"""
+def rand_supercell(rng, crys, spectator, cutoff, nmob, nlo, nhi, tries=400, thin=False):
+    """integer matrix with nlo <= |det| * nmob <= nhi and shortest supercell vector > cutoff
+    (thin: < cutoff, i.e. clusters meet their own periodic image)"""
     from onsager import supercell
     dim = crys.dim
     for t in range(tries):
         r = rng.uniform()
-        if r < 0.25:
-            S = np.diag(rng.integers(1, 5, size=dim))
-        elif r < 0.5:  # lower-triangular (Hermite-like) with random off-diagonal entries
-            S = np.diag(rng.integers(1, 4, size=dim))
+        if r < 0.25 or (thin and r < 0.4):
+            S = np.diag(rng.integers(1, 5 if not thin else 7, size=dim))
+        elif r < 0.5 or (thin and r < 0.8):  # lower-triangular (Hermite-like) with random off-diagonal entries
+            S = np.diag(rng.integers(1, 4 if not thin else 5, size=dim))
             for a in range(dim):
                 for b in range(a):
                     S[a, b] = rng.integers(-2, 3)
             if rng.uniform() < 0.5: S = S.T
         else:
             S = rng.integers(-2, 4, size=(dim, dim))
+        if thin and r < 0.8:
+            S[int(rng.integers(dim)), int(rng.integers(dim))] = 1  # encourage a short period
+            d = int(rng.integers(dim))
+            if rng.uniform() < 0.7: S[d, d] = 1
         det = int(round(np.linalg.det(S)))
         n = abs(det) * nmob
         if det == 0 or n < nlo or n > nhi: continue
         L = crys.lattice @ S
         # cheap necessary test before the brute-force one
-        if min(np.linalg.norm(L[:, d]) for d in range(dim)) <= cutoff * 1.000001: continue
+        if not thin and min(np.linalg.norm(L[:, d]) for d in range(dim)) <= cutoff * 1.000001: continue
         try:
             sup = supercell.ClusterSupercell(crys, S.astype(int), spectator=spectator)
         except Exception:
             continue  # supercell construction is not the subject here (C28)
-        if clusterE.min_supercell_vector(sup) <= cutoff * 1.000001: continue
+        vmin = clusterE.min_supercell_vector(sup)
+        if thin:
+            if vmin >= cutoff * 0.999999: continue
+        elif vmin <= cutoff * 1.000001: continue
         return S.astype(int), sup
     return None, None
 
@@ -137,10 +181,16 @@ def run_case(case):
     small = case.get('mode') == 'small'
     nexh = 10 if tier == 'quick' else 14
     budget = 4e5 if tier == 'quick' else 4e6
+    thin = bool(case.get('thin'))
+    frommenu = thin and bool(case.get('menu'))
     # ---------------- crystal, sublattices, clusters ----------------
-    for attempt in range(30):
+    for attempt in range(60 if thin else 30):
         wantspec = bool(case.get('spec'))
-        if rng.uniform() < 0.45:
+        if frommenu:
+            pool = THIN_MULTI if wantspec else THIN_MENU
+            kind, Sm, mcut, mord = pool[int(rng.integers(len(pool)))]
+            crys = named3(kind)
+        elif rng.uniform() < 0.45:
             names = MULTI3 if wantspec else NAMES3
             kind = names[int(rng.integers(len(names)))]
             crys = named3(kind)
@@ -153,10 +203,26 @@ def run_case(case):
         spectator = sorted(int(x) for x in rng.choice(crys.Nchem, size=nspec, replace=False))
         mobile = [c for c in range(crys.Nchem) if c not in spectator]
         nmob = sum(len(crys.basis[c]) for c in mobile)
-        if small and nmob > nexh // 2: continue
+        if small and nmob > nexh // 2 and not frommenu: continue
         exclude = [c for c in spectator if rng.uniform() < 0.25]
         allowed = set(c for c in range(crys.Nchem) if c not in exclude)
         geo = rc.Geometry(crys)
+        if frommenu:
+            order, cutoff = int(rng.integers(2, mord + 1)), float(mcut)
+            S = np.array(Sm, dtype=int)
+            if S.ndim == 1: S = np.diag(S)
+            if rng.uniform() < 0.25: S[:, int(rng.integers(3))] *= -1  # other handedness, same lattice
+            if abs(int(round(np.linalg.det(S)))) * nmob > 60: continue
+            sup = supercell.ClusterSupercell(crys, S, spectator=spectator)
+            small = sup.Nmobile * sup.size <= nexh
+            break
+        if thin:
+            order = int(rng.choice([2, 2, 3, 3, 3, 4]))
+            cutoff = rc.choose_cutoff(geo, allowed, order, rng, COORD_LIMIT, kmin=2)
+            S, sup = rand_supercell(rng, crys, spectator, cutoff, nmob, 2, nexh, thin=True) if small else \
+                rand_supercell(rng, crys, spectator, cutoff, nmob, nexh + 1, 60, thin=True)
+            if sup is not None: break
+            continue
         order = int(rng.choice([1, 2, 2, 3, 3, 3, 4]))
         cutoff = rc.choose_cutoff(geo, allowed, order, rng, COORD_LIMIT)
         if small:
@@ -167,11 +233,15 @@ def run_case(case):
     else:
         return mon.result(sample=None, nontrivial=False, inconclusive=None)
     desc = {'kind': kind, 'lattice': crys.lattice, 'basis': crys.basis, 'spectator': spectator, 'exclude': exclude, 'cutoff': cutoff,
-            'order': order, 'superlatt': S, 'hashseed': case.get('hashseed')}
+            'order': order, 'superlatt': S, 'hashseed': case.get('hashseed'), 'thin': thin}
     sdesc = str({k: (np.asarray(v).tolist() if k in ('lattice', 'superlatt') else
                      ([[np.asarray(u).tolist() for u in l] for l in v] if k == 'basis' else v)) for k, v in desc.items()})
     minvec = clusterE.min_supercell_vector(sup)
-    mon.check(minvec > cutoff, 'C32:selfwrap-bound', 'generator: shortest supercell vector %g <= cutoff %g' % (minvec, cutoff))
+    if thin:
+        if not minvec < cutoff:
+            return mon.result(sample=None, nontrivial=False, inconclusive='generator: thin supercell has no vector below the cut-off')
+    else:
+        mon.check(minvec > cutoff, 'C32:selfwrap-bound', 'generator: shortest supercell vector %g <= cutoff %g' % (minvec, cutoff))
     clusterexp = cluster.makeclusters(crys, cutoff, order, exclude=exclude)
     # pair distances of all generated clusters stay below the cut-off (the self-wrap bound relies on it)
     dmax = 0.
@@ -179,7 +249,8 @@ def run_case(case):
         cl = next(iter(s))
         xs = [geo.cart(rc.site(cs.ci[0], cs.ci[1], cs.R)) for cs in cl.sites]
         for a, b in itertools.combinations(xs, 2): dmax = max(dmax, float(np.linalg.norm(a - b)))
-    mon.check(dmax < cutoff, 'C32:selfwrap-bound', 'cluster diameter %g >= cutoff %g' % (dmax, cutoff))
+    if not thin:
+        mon.check(dmax < cutoff, 'C32:selfwrap-bound', 'cluster diameter %g >= cutoff %g' % (dmax, cutoff))
     nmobile = sup.Nmobile * sup.size
     # vacancy
     vac = None
@@ -225,6 +296,23 @@ def run_case(case):
     mon.note_max('cluster_sets', len(clusterexp))
     mon.seen('orders', order)
     mon.seen('sizes', int(sup.size))
+    nwrap = sum(int(np.sum(f)) for f in ref.selfwrap)
+    mon.count('regular_supercells_with_self_wrapping', (not thin) and nwrap > 0)   # must stay 0: the regular generator excludes them
+    if thin:
+        mon.count('thin_supercells')
+        mon.count('thin_menu_supercells', frommenu)
+        mon.count('thin_random_supercells', not frommenu)
+        mon.count('thin_exhaustive_supercells', small)
+        mon.count('thin_vacancy_supercells', vac is not None)
+        mon.count('thin_spectator_supercells', sup.Nspec > 0)
+        mon.count('thin_nondiagonal_supercells', bool(np.any(S - np.diag(np.diag(S)))))
+        mon.count('thin_supercells_with_self_wrapping', nwrap > 0)
+        mon.count('self_wrapping_instances', nwrap)
+        mon.count('self_wrapping_constant_instances', ref.nselfwrap_const)
+        mon.count('vacancy_image_in_range', len(ref.vacimage))
+        mon.count('thin_supercells_with_vacancy_image', len(ref.vacimage) > 0)
+        mon.seen('thin_cells', '%s %s' % (kind, S.tolist()))
+        mon.note_min('thin_minvec_over_cutoff', minvec / cutoff)
     if nontrivial:
         mon.sig([kind, spectator, S.tolist(), order, vac is not None, len(clusterexp)])
     # ---------------- configurations ----------------
@@ -240,6 +328,16 @@ def run_case(case):
         if vac is not None: occs[:, vac] = 0
         counts = np.array([ref.counts(o) for o in occs])
     mon.count('configs_checked', len(occs))
+    if thin:
+        # the self-wrapping instances must actually be switched on / off by the configurations, and the dropped
+        # vacancy-image placements must see their remaining sites occupied (where a wrong reading would count them)
+        non = 0
+        for inst, flags in zip(ref.instances, ref.selfwrap):
+            for mob, f in zip(inst, flags):
+                if f: non += int(np.all(occs[:, sorted(set(mob))] == 1, axis=1).sum())
+        mon.count('self_wrapping_instances_on', non)
+        mon.count('vacancy_image_rest_occupied',
+                  sum(int(np.all(occs[:, list(rest)] == 1, axis=1).sum()) if rest else len(occs) for _, rest in ref.vacimage))
     vals_full = values if const else np.append(values, 0.)
     Eref = counts @ vals_full
     mon.note_max('energy_scale', scale)
@@ -282,6 +380,7 @@ def run_case(case):
                                                                           KRAvalues=rng.normal(size=len(jn)), TSclusters=ts,
                                                                           TSvalues=rng.normal(size=len(ts)))))
                 mon.count('jumpnetwork_samplers')
+                mon.count('thin_jumpnetwork_samplers', thin)
     for name, MC in samplers:
         Es = np.zeros(len(occs))
         ok = True
